@@ -77,6 +77,12 @@ CLAIMED = {
             'above U+10FFFF): nothing decoded is emitted, the error is counted once and marked or reported at its start; every input read is '
             'bounds-guarded and every iteration advances. First sequence of the input only.',
             'decision tables by abstract interpretation over interval classes + iterator typestate (guard domination)', '§5 C12'),
+    'C14': ('other',
+            'Calendar correctness and the exact print/parse round trip are NOT decided (integer arithmetic over 2^64 instants). Decided is one '
+            'necessary structural clause of "the text form is the correct date-time": the text is produced inside its buffer - every store of '
+            'PrintIsoUtc / PrintDurationPart lies in [buf, end) for symbolic pointers and symbolic snprintf/to_chars results, and callers pass '
+            'a local array with its own end.',
+            'linear-constraint analysis of buffer cursors (Fourier-Motzkin entailment) over the typed AST', '§6, §11.7'),
     'C15': ('other',
             'Decides the "never wraps" clause where it is visible in the code: interval abstract interpretation with adaptive cell splitting '
             'over every instantiation of SafeDurationCast (no signed overflow, value returned only unwrapped and equal to the exact product/quotient, '
@@ -121,9 +127,6 @@ CLAIMED = {
 }
 
 NOT_APPLICABLE = {
-    'C14': 'calendar correctness and exact print/parse round trip are integer arithmetic over 2^64 instants: no clause is both necessary and '
-           'decidable from code shape by a sound static rule within reach (DESIGN.md §6); its structural neighbour (floor-based '
-           'seconds/nanoseconds split) is decided under C06',
 }
 
 
